@@ -603,4 +603,18 @@ def timeout_ok(case):
 
 
 def matches_finding(f, case, o, v):
+    if f['id'] == 'C15-units-log-base':
+        # only the comparisons between dit's own trivial bounds (in the distribution's base) and the optimised value (in bits) may fail,
+        # and only by the unit factor
+        if case['kind'] != 'bounds' or case.get('which') != 'skar' or case['spec']['base'] in ('linear', 2, 2.0):
+            return False
+        labels, verd = o.get('_goal_labels') or [], o.get('_goal_verdicts') or []
+        bad = [l for l, x in zip(labels, verd) if x != 'OK']
+        if not bad or not all(l.startswith('trivial') for l in bad):
+            return False
+        b = case['spec']['base']
+        factor = math.log2(math.e if b == 'e' else float(b))
+        # after converting dit's bounds to bits they do bracket the value: the disagreement is the unit factor and nothing else
+        lo, up = sorted([o['lower'] * factor, o['upper'] * factor])
+        return lo - 2e-3 <= o['value'] <= up + 2e-3
     return False
